@@ -78,6 +78,7 @@ class Program:
         self.classes = {}
         self._node_func = {}
         self.consulted = set()
+        self._raw = {}
         self.renamed = {}          # module -> {unit: {current local name: reference name}} (lbsa.alpha)
         self._attr_write_index, self._call_index, self._ref_index = {}, {}, {}
         for pkg in packages:
@@ -86,6 +87,18 @@ class Program:
             self._load_tree(os.path.join(self.root, d), as_scripts=True)
         if not self.modules:
             raise AnalysisError(f"no python modules found under {self.root}")
+        # second phase: every module is parsed — bring edited modules back to the shape of the reference (lbsa.alpha / lbsa.derefactor); the signature
+        # table (parameter names of the repo's functions, for keyword <-> positional arguments) needs all trees
+        sigs = None
+        for name, m in self.modules.items():
+            if alpha.is_reference(name, self._raw.get(name)):
+                continue
+            if sigs is None:
+                sigs = alpha.signatures(mm.tree for mm in self.modules.values())
+            ren = alpha.normalise(name, m.tree, self._raw.get(name), sigs)
+            if ren:
+                self.renamed[name] = ren
+        self._raw = {}
         for m in self.modules.values():
             self._index_module(m)
         for c in self.classes.values():
@@ -121,9 +134,7 @@ class Program:
                 except (SyntaxError, UnicodeDecodeError, OSError) as e:
                     raise AnalysisError(f"cannot parse {rel}: {e}")
                 alpha.strip_logging(tree)
-                ren = alpha.normalise(name, tree, raw)
-                if ren:
-                    self.renamed[name] = ren
+                self._raw[name] = raw
                 self.modules[name] = Module(name, path, rel, src, tree)
 
     def _index_module(self, m):
